@@ -1,6 +1,6 @@
 """C10 — stdlib array, set and higher-order functions match their reference definitions.
 
-Part More (coq/theories/C10/ModelMore.v ...): 15 builtins over arrays of LAZY elements, see gen_lazy_cases /
+Part More (coq/theories/C10/ModelMore.v ...): 19 builtins over arrays of LAZY elements, see gen_lazy_cases /
 correspond_lazy below.
 
 Theorems: coq/theories/C10 (the merge loops of std.setUnion/setInter/setDiff, the binary search
@@ -494,14 +494,39 @@ LFN2_JS = {
     "L2Add": 'function(p, q) if std.isNumber(p) && std.isNumber(q) then p + q else error "add"',
     "L2Err": 'function(p, q) error "boom"',
 }
+LFM_JS = {
+    "LMWrap": "function(x) [x]",
+    "LMDup": "function(x) [x, x]",
+    "LMEmpty": "function(x) []",
+    "LMErrElem": 'function(x) [error "boom"]',
+    "LMIfNum": "function(x) if std.isNumber(x) then [x] else []",
+    "LMErr": 'function(x) error "boom"',
+    "LMNum": "function(x) 1",
+}
+# calls outside the value universe of the model (results with lazy elements inside values), and the
+# reproducers of the fixed findings: (Jsonnet, expected canonical JSON value)
+LAZY_REGRESSIONS = [
+    ('std.foldl(function(p, q) p, [error "x"], 0)', 0),                                   # 762ca42
+    ('std.foldr(function(p, q) q, [error "x"], 0)', 0),                                   # 762ca42
+    ('std.length(std.foldl(function(a, b) a + [b], [error "x"], []))', 1),                # 762ca42
+    ('std.length(std.foldr(function(a, b) b + [a], [error "x", error "y"], []))', 2),     # 762ca42
+    ('std.map(function(x) 7, [error "x"])[0]', 7),                                        # 9dc676b
+    ('std.mapWithIndex(function(i, x) i, [error "x", error "y"])', [0, 1]),               # 9dc676b
+    ('std.filterMap(function(x) true, function(x) 7, [error "x"])', [7]),                 # 9dc676b
+    ('std.length(std.flatMap(function(x) [error "boom"], [1]))', 1),                      # 9d0c0a4
+    ('std.length(std.flatMap(function(x) [x, x], [error "x"]))', 2),                      # 9d0c0a4
+    ('std.flatMap(function(x) [1], [error "x"])', [1]),                                   # 9d0c0a4
+]
 LSIG = {
     "LAny": ("any", "l"), "LAll": ("all", "l"), "LCount": ("count", "lv"), "LMember": ("member", "lv"),
     "LContains": ("contains", "lv"), "LFind": ("find", "vl"), "LRemove": ("remove", "lv"),
     "LFoldl": ("foldl", "hlv"), "LFoldr": ("foldr", "hlv"), "LMap": ("map", "fl"), "LReverse": ("reverse", "l"),
+    "LMapWithIndex": ("mapWithIndex", "hl"), "LFilter": ("filter", "fl"), "LFilterMap": ("filterMap", "ffl"),
+    "LFlatMap": ("flatMap", "ml"),
     "LMinArray": ("minArray", "lkE"), "LMaxArray": ("maxArray", "lkE"),
     "LStartsWith": ("startsWith", "ll"), "LEndsWith": ("endsWith", "ll"),
 }
-L_ARRAY_RESULT = ("LRemove", "LMap", "LReverse")
+L_ARRAY_RESULT = ("LRemove", "LMap", "LReverse", "LMapWithIndex", "LFilter", "LFilterMap", "LFlatMap")
 KNOWN_IDS = {1: "C10-member-remove-stop-at-first-match", 2: "C10-callback-element-forced",
              3: "C10-minarray-first-key-not-compared"}
 
@@ -529,7 +554,7 @@ def lcall_coq(c):
             parts.append(ll_coq(a))
         elif kind == "v":
             parts.append(v_coq(a))
-        elif kind in "hf":
+        elif kind in "hfm":
             parts.append(a)
         elif kind == "k":
             parts.append(k_coq(a))
@@ -548,6 +573,8 @@ def lcall_js(c):
             parts.append(v_js(a))
         elif kind == "h":
             parts.append(LFN2_JS[a])
+        elif kind == "m":
+            parts.append(LFM_JS[a])
         elif kind == "f":
             parts.append(FN_JS[a])
         elif kind == "k":
@@ -614,6 +641,22 @@ def gen_lazy_cases(run):
     for arr in E2 + [larr() for _ in range(20 * mul)]:
         for f in ("FConst", "FId", "FNeg", "FErr", "FTrue", "FLen"):
             add(("LMap", f, arr))
+    # mapWithIndex / filter / filterMap / flatMap: which elements are forced, what stays a thunk
+    LPREDS = ["FTrue", "FIsNum", "FErr", "FGt0", "FNotNull", "FConst"]
+    for arr in E2 + [larr(3, [1, "a", ERR, 0]) for _ in range(12 * mul)]:
+        for f in LFN2_JS:
+            add(("LMapWithIndex", f, arr))
+        for pr in LPREDS:
+            add(("LFilter", pr, arr))
+        for g in LFM_JS:
+            add(("LFlatMap", g, arr))
+    for arr in E3:
+        add(("LFilter", "FTrue", arr))
+        add(("LFilter", "FIsNum", arr))
+        add(("LFlatMap", rng.choice(list(LFM_JS)), arr))
+    for _ in range(100 * mul):
+        add(("LFilterMap", rng.choice(LPREDS), rng.choice(["FConst", "FId", "FNeg", "FErr", "FLen"]),
+             larr(3, rng.choice([[1, 2, ERR], [1, "a", ERR, 0], [1, -1, 0]]))))
     # minArray / maxArray: ties (the first extreme element wins), failing elements, onEmpty, keys that do not compare
     for arr in E3:
         for fn in ("LMinArray", "LMaxArray"):
@@ -698,6 +741,19 @@ def correspond_lazy(run, binary, cases):
         run.obligation("harness.lazy", False, f"{len(outs)} answers for {len(reqs)} requests")
         return failures, model_diffs
     run.count("harness:lazy-requests", len(reqs))
+    regs = core.run_harness(binary, "eval", [{"seq": [{"code": c} for c, _ in LAZY_REGRESSIONS]}])
+    regs = regs[0].get("seq") if regs and isinstance(regs[0], dict) and isinstance(regs[0].get("seq"), list) else []
+    if len(regs) != len(LAZY_REGRESSIONS):
+        run.obligation("harness.lazy-regressions", False, f"{len(regs)} answers")
+    for (code, want), o in zip(LAZY_REGRESSIONS, regs):
+        got = code_out(o)
+        exp = ("ok", canon_val(want))
+        run.note_case(code, True)
+        run.count("lazy:regression")
+        if got != exp:
+            failures.append({"case": {"jsonnet": code}, "what": "regression of a fixed laziness finding",
+                             "summary": f"C10 result differs from the documented definition: {code}",
+                             "expected": repr(exp), "got": repr(got)[:300]})
     for c, m, pl in zip(cases, model, plan):
         js = lcall_js(c)
         if pl is None:
